@@ -25,7 +25,8 @@ Definition Good (g : dag) (d : disk) : Prop :=
   /\ (forall n p, In n (d_ops d) -> In p (parents g n) -> In p (d_ops d))
   /\ (forall h, In h (d_heads d) -> anc g h (newest (d_heads d)))
   /\ In (d_checkout d) (d_ops d)
-  /\ Cov g (d_heads d) (d_checkout d).
+  /\ Cov g (d_heads d) (d_checkout d)
+  /\ wc_consistent d.
 
 Lemma closed_anc : forall g ops, (forall n p, In n ops -> In p (parents g n) -> In p ops) ->
   forall x h, anc g x h -> In h ops -> In x ops.
@@ -40,12 +41,15 @@ Proof.
   intros h x Hh Ha. eapply closed_anc; eauto.
 Qed.
 
-Lemma apply_allowed_Good : forall g d e, wf_dag g -> Good g d -> allowed g d e = true ->
-  Good g (apply_effect d e)
-  /\ (forall x, Cov g (d_heads d) x -> Cov g (d_heads (apply_effect d e)) x).
+Lemma apply_allowed_Good : forall g chg d e, wf_dag g -> Good g d -> allowed g d e = true ->
+  Good g (apply_effect chg d e)
+  /\ (forall x, Cov g (d_heads d) x -> Cov g (d_heads (apply_effect chg d e)) x).
 Proof.
-  intros g d e Hwf (Hne & Hsub & Hcl & Hlin & Hco & Hcc) Hal.
+  intros g chg d e Hwf (Hne & Hsub & Hcl & Hlin & Hco & Hcc & Hwc) Hal.
+  assert (Hcle : d_checkout d <= newest (d_heads d)).
+  { destruct Hcc as [h [Hh Ha]]. pose proof (anc_le g Hwf _ _ Ha). pose proof (newest_ge _ _ Hh). lia. }
   assert (Hsame : forall x, Cov g (d_heads d) x -> Cov g (d_heads d) x) by auto.
+  unfold wc_consistent, current in *.
   destruct e as [|n|n|n|n| | |p|p| | |]; simpl in *;
     try (split; [unfold Good; simpl; repeat split; assumption|exact Hsame]).
   - (* EOp *)
@@ -72,6 +76,10 @@ Proof.
       * intros h Hh. rewrite Hnew. apply In_add_head in Hh. destruct Hh as [->|Hh]; [apply anc_refl|].
         apply ancb_spec; [exact Hwf|]. apply Hdesc. exact Hh.
       * eapply Cov_heads_mono; [|exact Hcc]. intros h Hh. apply In_add_head. right. exact Hh.
+      * unfold wc_consistent, current; simpl. rewrite Hnew. destruct (Nat.eq_dec n (newest (d_heads d))) as [En|En].
+        -- destruct Hwc as [Hwc|Hwc]; [left; congruence|]. right. rewrite Hwc, <- En, Nat.eqb_refl.
+           destruct (negb (memn n chg)); simpl; congruence.
+        -- left. assert (newest (d_heads d) <= n) by (apply Hge; apply newest_in; exact Hne). lia.
     + intros x Hx. eapply Cov_heads_mono; [|exact Hx]. intros h Hh. apply In_add_head. right. exact Hh.
   - (* EHeadRemove *)
     apply existsb_exists in Hal. destruct Hal as [h [Hh Hs]]. apply sancb_spec in Hs; [|exact Hwf].
@@ -92,30 +100,36 @@ Proof.
     + intros E. rewrite E in Hkeep. destruct Hkeep.
     + intros h' Hh'. apply In_remove_id in Hh'. apply Hsub. tauto.
     + intros h' Hh'. rewrite Hnew. apply In_remove_id in Hh'. apply Hlin. tauto.
+    + unfold wc_consistent, current; simpl. rewrite Hnew. exact Hwc.
+  - (* ETreeState *)
+    split; [|exact Hsame]. unfold Good; simpl. repeat split; auto.
+    unfold wc_consistent, current; simpl. right. reflexivity.
   - (* ECheckout *)
+    rewrite !Bool.andb_true_iff in Hal. destruct Hal as [[_ Hts] _]. apply Nat.eqb_eq in Hts.
     split; [|exact Hsame]. unfold Good; simpl. repeat split; auto.
     + apply Hsub. apply newest_in. exact Hne.
     + apply Cov_head. apply newest_in. exact Hne.
+    + unfold wc_consistent, current; simpl. right. exact Hts.
 Qed.
 
-Lemma accept_prefix_Good : forall g l d d', wf_dag g -> Good g d -> accept g d l = Some d' ->
-  forall k, Good g (crash_state d l k)
-    /\ (forall x, Cov g (d_heads d) x -> Cov g (d_heads (crash_state d l k)) x).
+Lemma accept_prefix_Good : forall g chg l d d', wf_dag g -> Good g d -> accept g chg d l = Some d' ->
+  forall k, Good g (crash_state chg d l k)
+    /\ (forall x, Cov g (d_heads d) x -> Cov g (d_heads (crash_state chg d l k)) x).
 Proof.
-  intros g l. induction l as [|e r IH]; intros d d' Hwf HG Hacc k; unfold crash_state.
+  intros g chg l. induction l as [|e r IH]; intros d d' Hwf HG Hacc k; unfold crash_state.
   - rewrite firstn_nil. simpl. auto.
   - destruct k as [|k]; [simpl; auto|]. simpl firstn. rewrite run_cons.
     simpl in Hacc. destruct (allowed g d e) eqn:Hal; [|discriminate].
-    destruct (apply_allowed_Good g d e Hwf HG Hal) as [HG' Hc'].
+    destruct (apply_allowed_Good g chg d e Hwf HG Hal) as [HG' Hc'].
     destruct (IH _ _ Hwf HG' Hacc k) as [HG'' Hc'']. unfold crash_state in *. split; [exact HG''|].
     intros x Hx. apply Hc''. apply Hc'. exact Hx.
 Qed.
 
 (** Heads after a prefix are initial heads or heads the command itself recorded. *)
-Lemma heads_origin : forall l d k h,
-  In h (d_heads (crash_state d l k)) -> In h (d_heads d) \/ In (EHeadAdd h) (firstn k l).
+Lemma heads_origin : forall chg l d k h,
+  In h (d_heads (crash_state chg d l k)) -> In h (d_heads d) \/ In (EHeadAdd h) (firstn k l).
 Proof.
-  induction l as [|e r IH]; intros d k h Hin; unfold crash_state in *.
+  intros chg. induction l as [|e r IH]; intros d k h Hin; unfold crash_state in *.
   - rewrite firstn_nil in Hin. simpl in Hin. auto.
   - destruct k as [|k]; [simpl in Hin; auto|]. simpl firstn in *. rewrite run_cons in Hin.
     destruct (IH _ _ _ Hin) as [H|H]; [|right; right; exact H].
@@ -126,10 +140,10 @@ Qed.
 
 (** An operation object is bound after a prefix only if it was bound before or its own
     rename is in the prefix: names are never bound in any other way (no torn object). *)
-Lemma ops_origin : forall l d k n,
-  In n (d_ops (crash_state d l k)) -> In n (d_ops d) \/ In (EOp n) (firstn k l).
+Lemma ops_origin : forall chg l d k n,
+  In n (d_ops (crash_state chg d l k)) -> In n (d_ops d) \/ In (EOp n) (firstn k l).
 Proof.
-  induction l as [|e r IH]; intros d k n Hin; unfold crash_state in *.
+  intros chg. induction l as [|e r IH]; intros d k n Hin; unfold crash_state in *.
   - rewrite firstn_nil in Hin. simpl in Hin. auto.
   - destruct k as [|k]; [simpl in Hin; auto|]. simpl firstn in *. rewrite run_cons in Hin.
     destruct (IH _ _ _ Hin) as [H|H]; [|right; right; exact H].
@@ -139,7 +153,7 @@ Qed.
 (** The documented recovery (`jj workspace update-stale`): snapshot what is on disk, check
     out the current operation's working-copy commit, save tree_state and checkout. *)
 Definition recover (d : disk) : disk :=
-  mk_disk (d_ops d) (d_heads d) (current d) [] (d_nobj d).
+  mk_disk (d_ops d) (d_heads d) (current d) [] (d_nobj d) (current d).
 
 Lemma recover_synced : forall d, wc_synced (recover d) = true.
 Proof. intros d. unfold wc_synced, recover, current; simpl. rewrite Nat.eqb_refl. reflexivity. Qed.
@@ -168,4 +182,6 @@ Proof.
   - intros h [<-|[]]. rewrite Nat.max_0_r. apply anc_refl.
   - apply in_seq. lia.
   - exists (c_head_before c). split; [left; reflexivity|exact Ha].
+  - unfold wc_consistent, current; simpl. rewrite Nat.max_0_r.
+    destruct (Nat.eq_dec (c_checkout_before c) (c_head_before c)); [right; assumption|left; assumption].
 Qed.
